@@ -12,6 +12,8 @@ import TonVerif.Generated.TlCostTable
 import TonVerif.Proofs.SrcTl
 import TonVerif.Generated.TlFraming
 import TonVerif.Proofs.SrcBocDeser
+import TonVerif.Proofs.SrcOrderAny
+import TonVerif.Proofs.SrcBocAny
 
 namespace TonVerif.Properties.C19
 open TonVerif TonVerif.Model TonVerif.Model.Cost TonVerif.Proofs.Cost
@@ -362,5 +364,114 @@ theorem c19_src_loop_iterations {ι σ : Type} (f : ι → σ → Option (σ × 
       · have := ih r.1; simp; omega
 
 example : loopIters [1, 2, 3] 0 (fun x s => if x = 2 then some (s, true) else some (s + x, false)) = 2 := by decide
+
+/-! ## the EMITTER's loops on the working tree (`Generated.BocEmitSrc`: `Cell.order`, `Cell.to_boc`, `Cell.serialize` regenerated from
+cell.py on every run) -/
+section SrcEmit
+open TonVerif.Proofs.BocOrder TonVerif.Generated.BocEmitSrc
+
+/-- iterations a translated `while` loop (`Py.while?`) performs in a run that returns -/
+def whileIters {σ : Type} (cond : σ → Bool) (body : σ → Option σ) : Nat → σ → Option Nat
+  | 0, _ => none
+  | fuel + 1, s => if cond s then (body s).bind fun s' => (whileIters cond body fuel s').map (· + 1) else some 0
+
+/-- the reading of the iteration budget: a run of a translated `while` loop that returns with budget `fuel` performed at most
+`fuel - 1` iterations (one unit is spent on seeing the condition fail) -/
+theorem c19_src_while_iterations {σ : Type} (cond : σ → Bool) (body : σ → Option σ) :
+    ∀ (fuel : Nat) (s s' : σ), Py.while? cond body fuel s = some s' → ∃ k, whileIters cond body fuel s = some k ∧ k + 1 ≤ fuel
+  | 0, _, _, h => by simp [Py.while?] at h
+  | fuel + 1, s, s', h => by
+    unfold Py.while? at h
+    unfold whileIters
+    by_cases hc : cond s = true
+    · simp only [hc, if_true] at h ⊢
+      cases hb : body s with
+      | none => rw [hb] at h; cases h
+      | some s1 =>
+        rw [hb, Option.bind_some] at h
+        obtain ⟨k, hk, hle⟩ := c19_src_while_iterations cond body fuel s1 s' h
+        exact ⟨k + 1, by simp [hk], by omega⟩
+    · simp only [hc, Bool.false_eq_true, if_false]
+      exact ⟨0, rfl, by omega⟩
+
+theorem nodup_of_nodup_map {α : Type} (f : α → Nat) : ∀ (l : List α), (l.map f).Nodup → l.Nodup
+  | [], _ => List.nodup_nil
+  | x :: xs, h => by
+    rw [List.map_cons, List.nodup_cons] at h
+    rw [List.nodup_cons]
+    exact ⟨fun hx => h.1 (List.mem_map_of_mem hx), nodup_of_nodup_map f xs h.2⟩
+
+/-- **C19 for the REGENERATED `Cell.order`**: on EVERY DAG of cell objects — `cells` lists the distinct sub-cells of the root
+(`n = cells.length`, carrying `e = Σ len(cell.refs)` references; any sharing, the same child referenced several times) — the
+regenerated `while stack:` loop ends within `1 + n + e` iterations: with the iteration budget `1 + n + e + 1` (one unit to see
+`stack` empty, `c19_src_while_iterations`) the function returns.  Every cell is expanded once (visited set), every reference
+pushed once, every entry popped once: the proof is a potential argument over the regenerated loop itself
+(Proofs/SrcOrderAny.lean `step_inv`: stack length + Σ over unvisited cells of `1 + references` drops by ≥ 1 per iteration), for
+whichever order the references are pushed in.  `NoCollision`: equal hashes mean equal cells among the cells at hand. -/
+theorem c19_src_order_linear (p : PCell) (nc : NoCollision p) (cells : List PCell) (hn : (cells.map PCell.key).Nodup)
+    (hc : ∀ d ∈ subcells p, d ∈ cells) (fuel : Nat)
+    (hf : 1 + cells.length + (cells.map (fun c => c.refs.length)).sum + 1 ≤ fuel) :
+    ∃ d, order fuel p [] = some d ∧ ValidOrder p (Py.dictKeys d) := by
+  obtain ⟨d, hd⟩ := Proofs.SrcOrderAny.src_order_linear fuel p nc cells hn hc hf
+  exact ⟨d, hd, (Proofs.SrcOrderAny.src_order_valid_any fuel p d nc hd).1⟩
+
+/-- steps of the regenerated `Cell.to_boc` when the traversal returned the key list `keys` and the call returned `out` bytes:
+the `while stack:` loop (≤ its budget − 1), `for cell in reversed(post_order)` and the `enumerate` comprehension (one per key),
+`for cell in ordered_cells` with `for ref in self.refs` of `Cell.serialize` inside (one per key + one per reference),
+`for l in serialized_cells_len` (one per key, with the index), the Python-level CRC loop (one per byte before the checksum) -/
+def srcToBocSteps (whileIterations : Nat) (keys : List PCell) (o : Opts) (out : Nat) : Nat :=
+  whileIterations + keys.length + keys.length + (keys.map (fun c => 1 + c.refs.length)).sum +
+    (if o.hasIdx then keys.length else 0) + (if o.hasCrc then out - 4 else 0)
+
+/-- **C19 for the REGENERATED `Cell.to_boc`** (PARTIAL: the `while` bound is proved about the regenerated loop; the `for` loops are
+counted by the lengths of the lists they iterate, read off the equality `c04_src_to_boc_any` with the order-agnostic layout
+`flattenCells` / `emit`, not by an instrumented translation).  With the budget `1 + n + e + 1` the regenerated traversal returns
+a valid order `keys` of exactly the `n` distinct cells, the regenerated `to_boc` IS the lookup + layout of these keys (it raises
+or returns without running out of budget), and for every output the steps are `≤ 5·(n + e) + 1 + len(output)`. -/
+theorem c19_src_serialize_poly (p : PCell) (nc : NoCollision p) (cells : List PCell) (hn : (cells.map PCell.key).Nodup)
+    (hc : ∀ d ∈ subcells p, d ∈ cells) (hs : ∀ c ∈ cells, c ∈ subcells p) (o : Opts) :
+    ∃ d, order (1 + cells.length + (cells.map (fun c => c.refs.length)).sum + 1) p [] = some d ∧
+      to_boc (1 + cells.length + (cells.map (fun c => c.refs.length)).sum + 1) p o.hasIdx o.hasCrc o.hasCache o.flags =
+        (flattenCells (indexMap (Py.dictKeys d)) (Py.dictKeys d)).bind (emit · o) ∧
+      (Py.dictKeys d).length = cells.length ∧
+      ((Py.dictKeys d).map (fun c => c.refs.length)).sum = (cells.map (fun c => c.refs.length)).sum ∧
+      ∀ out, srcToBocSteps (1 + cells.length + (cells.map (fun c => c.refs.length)).sum) (Py.dictKeys d) o out ≤
+        5 * (cells.length + (cells.map (fun c => c.refs.length)).sum) + 1 + out := by
+  obtain ⟨d, hd, vo⟩ := c19_src_order_linear p nc cells hn hc _ (Nat.le_refl _)
+  have hperm : (Py.dictKeys d).Perm cells := by
+    apply (List.perm_ext_iff_of_nodup (nodup_of_nodup_map _ _ vo.nodup) (nodup_of_nodup_map _ _ hn)).2
+    intro a
+    constructor
+    · intro ha; exact hc a (vo.sound a ha)
+    · intro ha
+      obtain ⟨y, hy, hyk⟩ := List.mem_map.1 (vo.complete a (hs a ha))
+      rw [← nc y (vo.sound y hy) a (hs a ha) hyk]; exact hy
+  have hlen := hperm.length_eq
+  have hsum : ((Py.dictKeys d).map (fun c => c.refs.length)).sum = (cells.map (fun c => c.refs.length)).sum :=
+    (hperm.map _).sum_nat
+  refine ⟨d, hd, (Proofs.SrcBocAny.src_toBoc_any _ p d nc hd o.hasIdx o.hasCrc o.hasCache o.flags).2, hlen, hsum, ?_⟩
+  intro out
+  have h1 : ((Py.dictKeys d).map (fun c => 1 + c.refs.length)).sum =
+      (Py.dictKeys d).length + ((Py.dictKeys d).map (fun c => c.refs.length)).sum := by
+    generalize Py.dictKeys d = l
+    induction l with
+    | nil => rfl
+    | cons a l ih => simp only [List.map_cons, List.sum_cons, List.length_cons, ih]; omega
+  unfold srcToBocSteps
+  rw [h1, hlen, hsum]
+  split <;> split <;> omega
+
+/-- non-vacuity: the diamond (root → m1, m2 → shared leaf: 4 cells, 4 references) meets the hypotheses; budget 10 -/
+example : ∃ d, order 10 Example.root [] = some d ∧ ValidOrder Example.root (Py.dictKeys d) := by
+  refine c19_src_order_linear Example.root Example.noCollision [Example.root, Example.m1, Example.m2, Example.leaf] ?_ ?_ 10 ?_
+  · obtain ⟨k1, k2, k3, k4⟩ := Example.keys
+    simp [k1, k2, k3, k4]
+  · intro d hd
+    rw [Example.subcells_root] at hd
+    simp only [List.mem_cons, List.not_mem_nil, or_false] at hd ⊢
+    rcases hd with h | h | h | h | h <;> simp [h]
+  · simp [Example.root, Example.m1, Example.m2, Example.leaf, PCell.refs]
+
+end SrcEmit
 
 end TonVerif.Properties.C19
